@@ -127,6 +127,7 @@ func Run(prefix []int, maxSteps int, main func()) Result {
 	active.Store(s)
 	trackMu.Lock()
 	openIter = map[uintptr]map[int]int{}
+	writing = map[uintptr]int{}
 	trackMu.Unlock()
 	atomic.StoreInt32(&nManaged, 1)
 	t0 := &thread{id: 0, wake: make(chan struct{}, 1)}
@@ -467,6 +468,7 @@ var (
 	tracked  = map[uintptr]string{}
 	nTracked int32
 	openIter = map[uintptr]map[int]int{} // map -> thread id -> open iterations
+	writing  = map[uintptr]int{}         // map -> id+1 of the thread inside a write
 )
 
 func mapPtr(m interface{}) uintptr {
@@ -497,6 +499,7 @@ func UntrackMaps() {
 	trackMu.Lock()
 	tracked = map[uintptr]string{}
 	openIter = map[uintptr]map[int]int{}
+	writing = map[uintptr]int{}
 	atomic.StoreInt32(&nTracked, 0)
 	trackMu.Unlock()
 }
@@ -544,6 +547,55 @@ func MapIterStep(p uintptr) {
 		return
 	}
 	Yield(nil, "map-iter")
+	checkWriter(p, "iteration")
+}
+
+func fault(s *Sched, msg string) {
+	buf := make([]byte, 4096)
+	st := string(buf[:runtime.Stack(buf, false)])
+	s.mu.Lock()
+	if len(s.res.Faults) < 8 {
+		s.res.Faults = append(s.res.Faults, msg+"\n"+st)
+	}
+	s.mu.Unlock()
+}
+
+// checkWriter records a fault if another thread is inside a write of map p.
+func checkWriter(p uintptr, what string) {
+	s, th := current()
+	if th == nil {
+		return
+	}
+	trackMu.Lock()
+	w := writing[p]
+	name := tracked[p]
+	trackMu.Unlock()
+	if w != 0 && w-1 != th.id {
+		fault(s, fmt.Sprintf("concurrent map %s and map write: thread T%d accesses %s while thread T%d is writing it", what, th.id, name, w-1))
+	}
+}
+
+// MapRead precedes a statement that reads m[k].
+func MapRead(m interface{}) {
+	p, _, _ := trackedPtr(m)
+	if p == 0 {
+		return
+	}
+	Yield(nil, "map-read")
+	checkWriter(p, "read")
+}
+
+// MapWriteEnd follows the statement announced by MapWrite.
+func MapWriteEnd(m interface{}) {
+	p, _, th := trackedPtr(m)
+	if p == 0 {
+		return
+	}
+	trackMu.Lock()
+	if writing[p] == th.id+1 {
+		delete(writing, p)
+	}
+	trackMu.Unlock()
 }
 
 // MapIterEnd closes the iteration.
@@ -579,12 +631,12 @@ func MapWrite(m interface{}) {
 	}
 	trackMu.Unlock()
 	if len(others) > 0 {
-		buf := make([]byte, 4096)
-		st := string(buf[:runtime.Stack(buf, false)])
-		s.mu.Lock()
-		if len(s.res.Faults) < 8 {
-			s.res.Faults = append(s.res.Faults, fmt.Sprintf("concurrent map iteration and map write: thread T%d writes %s while thread(s) %v iterate over it\n%s", th.id, name, others, st))
-		}
-		s.mu.Unlock()
+		fault(s, fmt.Sprintf("concurrent map iteration and map write: thread T%d writes %s while thread(s) %v iterate over it", th.id, name, others))
 	}
+	checkWriter(p, "write")
+	// the write is in progress from here until MapWriteEnd; other threads may be scheduled in between
+	trackMu.Lock()
+	writing[p] = th.id + 1
+	trackMu.Unlock()
+	Yield(nil, "map-write-mid")
 }
